@@ -175,6 +175,11 @@ def run_reader_check(prop, tier):
     if prop in ("C07", "C08"):
         # the same property at the process level (C08: the CLI's --http-retry-count wiring against a server that cuts transfers): `bita clone` over HTTP with seeds inducing subsets; Range log of the server judged by CloneL2Trace.tla
         import clone_checks
+        if prop == "C07":
+            l1_runs, l1_tv, l1_counts = clone_checks.run_l1_runs(tier, out, workdir)
+            counts.update(l1_counts)
+            total += l1_runs
+            tv["events"] += l1_tv["events"]
         l2_runs, l2_tv, l2_counts, l2_samples = clone_checks.run_l2(prop, tier, out, workdir)
         counts.update(l2_counts)
         samples += l2_samples
@@ -195,6 +200,9 @@ def replay_reader(path):
     build_harness()
     r = json.load(open(path))
     rp = r["replay"]
+    if rp.get("kind") in ("clone_l1", "clone_l2"):
+        import clone_checks
+        return clone_checks.replay_clone(path)
     if rp.get("kind") != "reader_l1":
         print(json.dumps(rp, indent=1)[:5000])
         return 0
